@@ -128,6 +128,9 @@ Exec1(mm, nid, env) ==
        [] n.op \in {"Add", "Sum"} -> [env EXCEPT ![n.out] = x(1) + x(2)]
        [] n.op = "Sub" -> [env EXCEPT ![n.out] = x(1) - x(2)]
        [] n.op = "Mul" -> [env EXCEPT ![n.out] = x(1) * x(2)]
+       [] n.op = "Dropout" -> IF n.out2 = 0 THEN [env EXCEPT ![n.out] = x(1)]              \* inference mode: y = x, mask = true
+                              ELSE [env EXCEPT ![n.out] = x(1), ![n.out2] = 1]
+       [] n.op = "Where" -> [env EXCEPT ![n.out] = IF x(1) = 1 THEN x(2) ELSE x(3)]
        [] n.op = "Max" -> [env EXCEPT ![n.out] = IF x(1) > x(2) THEN x(1) ELSE x(2)]
        [] n.op = "If" -> LET b == mm.graphs[IF x(1) = 1 THEN n.subs[1] ELSE n.subs[2]]
                              e2 == RunSeq(mm, b.order, 1, env)
@@ -186,6 +189,8 @@ WFnames(mm) == WFscoped(mm) /\ WFssa(mm)
 (*   dbl      Add(x, x)          -> Mul(x, INIT(2))       new initializer named <x>_two             *)
 (*   fn       Add(Neg(x), y)     -> custom::NegAdd(x, y)  as_function (commute: Add(y, Neg(x)))     *)
 (*   pair     (Sub(x,y), Add(x,y)) -> (Add(x, Neg(y)), Sum(y, x))   two output nodes                *)
+(*   drop     Dropout(x)         -> Identity(x)           binds only the FIRST output: a host Dropout *)
+(*                                                        whose mask is read elsewhere is not removable *)
 (*   ext      Relu(x)            -> ext::MyRelu(x)        a domain the host does not import; MyRelu *)
 (*                                                        is a model-local function of the host     *)
 (*   dag      a=Neg(x); b=Relu(a); Add(a,b) -> custom::NegReluAdd(x)   as_function, DAG pattern with *)
@@ -207,7 +212,7 @@ RemovableInter(mm, v, S) == ~IsGOut(mm, v) /\ Uses(mm, v) \subseteq S
 InnerNode(mm, v, g, op) == LET p == mm.vals[v].p IN
                            IF p # 0 /\ mm.nodes[p].g = g /\ mm.nodes[p].op = op /\ mm.nodes[p].dom = "" /\ InOrder(mm, p) THEN p ELSE 0
 IsConst1(mm, v) == mm.vals[v].k = 1 /\ v # CTRUE
-MatchV(mm, nid, r, sw, devs) ==
+MatchV0(mm, nid, r, sw, devs) ==
   LET n == mm.nodes[nid]
       i1 == IF sw THEN 2 ELSE 1
       i2 == IF sw THEN 1 ELSE 2
@@ -231,6 +236,7 @@ MatchV(mm, nid, r, sw, devs) ==
                       \* a pattern variable bound to a value the match deletes: the design declines
                       /\ (n.ins[i2] # v \/ "var_binds_removed_intermediate" \in devs)
                    THEN Mt(<<nid, p>>, mm.nodes[p].ins[1], n.ins[i2], <<n.out>>) ELSE NoMatch
+         [] r = "drop" -> IF n.op = "Dropout" THEN Mt(<<nid>>, n.ins[1], 0, <<n.out>>) ELSE NoMatch
          [] r = "ext" -> IF n.op = "Relu" THEN Mt(<<nid>>, n.ins[1], 0, <<n.out>>) ELSE NoMatch
          [] r \in {"dag", "dagr"} ->
               IF n.op # "Add" THEN NoMatch
@@ -260,6 +266,15 @@ MatchV(mm, nid, r, sw, devs) ==
                                q.op = "Add" /\ q.dom = "" /\ q.ins[i1] = n.ins[1] /\ q.ins[i2] = n.ins[2]} IN
                    IF Q = {} THEN NoMatch
                    ELSE LET q == ord[Min(Q)] IN Mt(<<nid, q>>, n.ins[1], n.ins[2], <<n.out, mm.nodes[q].out>>)
+\* _valid_to_replace, declaratively: EVERY output of EVERY matched node is either an output of the pattern (taken over by
+\* the replacement) or read by matched nodes only and not exported.  (The per-rule predicates above check the interior
+\* values they know; this also covers outputs the pattern does not bind at all, e.g. the mask of a Dropout.)
+RemovableMatch(mm, mt) == \A n \in SeqSet(mt.nodes) : \A o \in SeqSet(Outs(mm.nodes[n])) :
+                             o \in SeqSet(mt.outs) \/ RemovableInter(mm, o, SeqSet(mt.nodes))
+ExtraOutsOK(mm, mt) == \A n \in SeqSet(mt.nodes) : mm.nodes[n].out2 = 0 \/ mm.nodes[n].out2 \in SeqSet(mt.outs)
+                                                    \/ RemovableInter(mm, mm.nodes[n].out2, SeqSet(mt.nodes))
+MatchV(mm, nid, r, sw, devs) == LET mt == MatchV0(mm, nid, r, sw, devs) IN
+                                IF mt.ok /\ Removes(r) /\ ~ExtraOutsOK(mm, mt) THEN NoMatch ELSE mt
 \* does the variant need the deviation to match (reported as why)
 NeedsVarDev(mm, nid, r, sw) == r = "fn" /\ MatchV(mm, nid, r, sw, AllDevs).ok /\ ~MatchV(mm, nid, r, sw, {}).ok
 
@@ -284,6 +299,8 @@ MakeDelta(mm, r, mt) ==
              vals |-> <<V(mm.vals[x].name \o "_two", 2, 0, 0), V("", NC, 0, nn + 1)>>, outs |-> <<nv + 2>>, inits |-> <<nv + 1>>, doms |-> {""}]
        [] r = "fn" ->
             [nodes |-> <<NewNode("NegAdd", "custom", <<x, y>>, nv + 1, r)>>, vals |-> <<U(1)>>, outs |-> <<nv + 1>>, inits |-> <<>>, doms |-> {"custom"}]
+       [] r = "drop" ->
+            [nodes |-> <<NewNode("Identity", "", <<x>>, nv + 1, r)>>, vals |-> <<U(1)>>, outs |-> <<nv + 1>>, inits |-> <<>>, doms |-> {""}]
        [] r = "ext" ->
             [nodes |-> <<NewNode("MyRelu", "ext", <<x>>, nv + 1, r)>>, vals |-> <<U(1)>>, outs |-> <<nv + 1>>, inits |-> <<>>, doms |-> {"ext"}]
        [] r \in {"dag", "dagr"} ->
@@ -419,7 +436,11 @@ DCEGraph(mm, g, ord, k) ==
        THEN DCEGraph(Erase(mm, n), g, ord, k - 1)
        ELSE LET m1 == IF Len(nd.subs) >= 1 THEN DCEGraph(mm, nd.subs[1], mm.graphs[nd.subs[1]].order, Len(mm.graphs[nd.subs[1]].order)) ELSE mm
                 m2 == IF Len(nd.subs) >= 2 THEN DCEGraph(m1, nd.subs[2], m1.graphs[nd.subs[2]].order, Len(m1.graphs[nd.subs[2]].order)) ELSE m1
-            IN DCEGraph(m2, g, ord, k - 1)
+                \* _remove_unused_optional_outputs (only where the graph itself imports the default domain): an unused mask goes
+                m3 == IF nd.op = "Dropout" /\ nd.out2 # 0 /\ Uses(mm, nd.out2) = {} /\ nd.out2 \notin SeqSet(mm.graphs[g].outs)
+                         /\ \E i \in 1..Len(mm.graphs[g].imports) : mm.graphs[g].imports[i][1] = ""
+                      THEN [m2 EXCEPT !.nodes[n].out2 = 0] ELSE m2
+            IN DCEGraph(m3, g, ord, k - 1)
 RECURSIVE DCEFuncs(_, _)
 DCEFuncs(mm, k) == IF k > Len(mm.funcs) THEN mm
                    ELSE LET f == mm.funcs[k] IN DCEFuncs(DCEGraph(mm, f, mm.graphs[f].order, Len(mm.graphs[f].order)), k + 1)
@@ -499,16 +520,18 @@ Cands ==
   IN LastOuts(m, g, 1) \cup LastOuts(m, g, 2) \cup outer \cup carried \cup {IA, IB}
 CandsU == Cands \ {IB}
 Primary == LET g == Top.g IN IF LastOuts(m, g, 1) # {} THEN LastOuts(m, g, 1) ELSE {IA}
-Unary == {"Neg", "Relu", "Identity", "Mul1", "Mul1c", "Mul3", "I_negneg", "I_dag", "I_dagr", "I_dagm"}
+Unary == {"Neg", "Relu", "Identity", "Mul1", "Mul1c", "Mul3", "I_negneg", "I_dag", "I_dagr", "I_dagm", "I_dagms", "Drop", "I_drop2", "I_dropm"}
 \* host-building steps.  Besides single nodes there are INSTANCE steps (a whole instance of a pattern, C06 style):
 \*   I_negneg(x) = Neg(Neg(x))      I_fn(x,y) = Add(Neg(x), y)      I_fnc(x,y) = Add(y, Neg(x))
 \*   I_dag(x) = n=Neg(x); r=Relu(n); Add(n,r)    I_dagr: Add(r,n)    I_dagm(x) = n=Neg(x); Relu(n); Identity(n)
+\*   I_dagms / I_pairs: as I_dagm / I_pair with an unmatched consumer of the FIRST output node between the two output nodes
+\*   Drop(x) = Dropout(x)   I_drop2(x) = (y, mask) = Dropout(x)   I_dropm(x) = (y, mask) = Dropout(x); Where(mask, y, x)
 \*   I_pair(x,y) = Sub(x,y); Add(x,y)    I_pairr(x,y) = Add(x,y); Sub(x,y)    I_pairc(x,y) = Add(x,y); Relu(that); Sub(x,y)
 ArgChoices(op) ==
   IF op \in Unary THEN {<<x>> : x \in CandsU}
   ELSE IF op \in {"I_fn", "I_fnc"} THEN {<<x, y>> : x \in Primary \cup {IA}, y \in {IB} \cup LastOuts(m, Top.g, 1) \cup (Cands \ {IA, IB})}
   ELSE IF op = "SubP" THEN {<<x, y>> : x \in Primary, y \in Cands \ Primary}           \* Sub(latest value, other)
-  ELSE IF op \in {"I_pair", "I_pairr", "I_pairc"} THEN {<<x, y>> \in (Primary \cup {IA}) \X ({IB} \cup Primary) : x # y}
+  ELSE IF op \in {"I_pair", "I_pairr", "I_pairc", "I_pairs"} THEN {<<x, y>> \in (Primary \cup {IA}) \X ({IB} \cup Primary) : x # y}
   ELSE IF Wide THEN {<<x, y>> : x \in Cands, y \in Cands}
   ELSE {<<x, y>> : x \in Primary, y \in Cands} \cup {<<x, y>> : x \in Cands, y \in Primary} \cup {<<IA, IB>>, <<IB, IA>>, <<IA, IA>>}
 Steps(op, a, v1) ==          \* v1: the id the first new value will get
@@ -522,6 +545,11 @@ Steps(op, a, v1) ==          \* v1: the id the first new value will get
     [] op = "I_dag" -> << <<"Neg", <<a[1]>>>>, <<"Relu", <<v1>>>>, <<"Add", <<v1, v1 + 1>>>> >>
     [] op = "I_dagr" -> << <<"Neg", <<a[1]>>>>, <<"Relu", <<v1>>>>, <<"Add", <<v1 + 1, v1>>>> >>
     [] op = "I_dagm" -> << <<"Neg", <<a[1]>>>>, <<"Relu", <<v1>>>>, <<"Identity", <<v1>>>> >>
+    [] op = "I_dagms" -> << <<"Neg", <<a[1]>>>>, <<"Relu", <<v1>>>>, <<"Relu", <<v1 + 1>>>>, <<"Identity", <<v1>>>> >>
+    [] op = "Drop" -> << <<"Dropout", <<a[1]>>>> >>
+    [] op = "I_drop2" -> << <<"Dropout", <<a[1]>>, 2>> >>                                            \* mask produced, nobody reads it
+    [] op = "I_dropm" -> << <<"Dropout", <<a[1]>>, 2>>, <<"Where", <<v1 + 1, v1, a[1]>>>> >>      \* mask read by an unmatched node
+    [] op = "I_pairs" -> << <<"Sub", a>>, <<"Relu", <<v1>>>>, <<"Add", a>> >>
     [] op = "I_pair" -> << <<"Sub", a>>, <<"Add", a>> >>
     [] op = "I_pairr" -> << <<"Add", a>>, <<"Sub", a>> >>
     [] op = "I_pairc" -> << <<"Add", a>>, <<"Relu", <<v1>>>>, <<"Sub", a>> >>
@@ -541,7 +569,10 @@ AppendSteps(mm, g, steps, k) ==
   ELSE LET nid == Len(mm.nodes) + 1
            \* shadow: the first node of the root graph is called like a name the IR generates
            nm == IF cfg.shadow /\ g = ROOT /\ mm.graphs[g].order = <<>> THEN "val_0" ELSE "n" \o ToString(nid)
-       IN AppendSteps(AppendNode(mm, g, steps[k][1], "", steps[k][2], nm), g, steps, k + 1)
+           m1 == AppendNode(mm, g, steps[k][1], "", steps[k][2], nm)
+           \* a step <<op, ins, 2>> makes a node with a second (BOOL) output
+           m2 == IF Len(steps[k]) = 3 THEN [m1 EXCEPT !.nodes[nid].out2 = Len(m1.vals) + 1, !.vals = Append(@, V(nm \o "_mask", NC, g, nid))] ELSE m1
+       IN AppendSteps(m2, g, steps, k + 1)
 AddNode(op, args) ==
   /\ phase = "build" /\ PlainCount < cfg.n
   /\ m' = AppendSteps(m, Top.g, Steps(op, args, Len(m.vals) + 1), 1)
@@ -698,7 +729,8 @@ Splice ==
          rem == IF Removes(p.r) THEN p.mt.nodes ELSE <<>>
          moved == InsertionIndex(m, F.g, F.cur, p.mt, {}) # InsertionIndex(m, F.g, F.cur, p.mt, AllDevs)
          why2 == IF moved /\ "multi_output_insertion_point" \in Devs THEN h.why \cup {"multi_output_insertion_point"} ELSE h.why
-         app == [rule |-> p.r, nodes |-> p.mt.nodes, olds |-> p.mt.outs, news |-> p.outs, newn |-> p.newn]
+         app == [rule |-> p.r, nodes |-> p.mt.nodes, olds |-> p.mt.outs, news |-> p.outs, newn |-> p.newn,
+                 removable |-> RemovableMatch(m, p.mt)]
      IN IF SafeToRemove(m1, rem)
         THEN /\ m' = EraseAll(m1, rem, 1)
              /\ eng' = [SetF([F EXCEPT !.stage = "desc", !.subq = m.nodes[F.cur].subs]) EXCEPT !.pend = NoPend, !.count = @ + 1, !.dirty = TRUE]
@@ -817,6 +849,7 @@ FrameOK(mm) ==
   /\ \A g \in 1..Len(h.orig.graphs) :
        SelectSeq(mm.graphs[g].order, LAMBDA n : n <= Len(h.orig.nodes)) = SelectSeq(h.orig.graphs[g].order, LAMBDA n : InOrder(mm, n))
 \* every step of the engine leaves a well-formed graph that computes the same function
+\* (WFids includes Graph!Scoped: every use comes after its definition - the node list stays topologically sorted)
 StepWF == (phase = "engine" /\ eng.dirty) \/ phase = "cleanup" => WFids(m)      \* after every Splice, after the post passes
 StepEval == phase = "engine" /\ eng.dirty => EvalModel(m) = h.ref
 Terminates == eng.count < MAXCOUNT
@@ -830,7 +863,9 @@ DoneOK == DoneOKm(m)
 Fails == (IF h.raised THEN <<"raised">> ELSE <<>>) \o (IF WFids(m) THEN <<>> ELSE <<"structure">>) \o (IF WFscoped(m) THEN <<>> ELSE <<"names">>)
          \o (IF WFssa(m) THEN <<>> ELSE <<"ssa">>) \o (IF EvalModel(m) = h.ref THEN <<>> ELSE <<"eval">>) \o (IF SigOK(m) THEN <<>> ELSE <<"signature">>)
          \o (IF FrameOK(m) THEN <<>> ELSE <<"frame">>) \o (IF h.any => eng.count >= 1 THEN <<>> ELSE <<"progress">>)
-Holds == /\ StepWF /\ StepEval /\ Terminates
+\* a match that is not removable is left untouched: whatever a removing rule was applied to was a removable instance
+OnlyRemovable == \A i \in 1..Len(h.apps) : Removes(h.apps[i].rule) => h.apps[i].removable
+Holds == /\ StepWF /\ StepEval /\ Terminates /\ OnlyRemovable
          /\ (phase = "done" => DoneOK)
 \* design run (Deviations = {}): the property
 PropertyHolds == eng.devs = {} => Holds
@@ -843,6 +878,8 @@ DesignNames == phase = "done" /\ ~h.raised /\ h.why \subseteq {"subgraph_name_cl
 \* vacuity witnesses (each must be VIOLATED)
 NeverRewrites == eng.count = 0
 NeverNested == \A i \in 1..Len(h.apps) : h.orig.graphs[h.orig.nodes[h.apps[i].nodes[1]].g].owner = 0
+NeverDeclinesUnremovable == ~(phase = "done" /\ \E n \in 1..Len(h.orig.nodes) : h.orig.nodes[n].op = "Dropout" /\ h.orig.nodes[n].out2 # 0
+                                                   /\ Uses(h.orig, h.orig.nodes[n].out2) # {} /\ InOrder(m, n) /\ eng.count > 0)
 NeverNeedsDeviation == phase = "done" => h.why = {}
 NeverOverlaps == ~(phase = "done" /\ \E i \in 1..Len(h.apps) : \E n \in SeqSet(h.apps[i].nodes) : n > Len(h.orig.nodes))
 
@@ -897,15 +934,17 @@ Q_dbl      == {RS(<<"dbl">>,               {"Add", "Mul3"},                    X
 Q_fn       == {RS(<<"fn">>,                {"I_fn", "I_fnc", "Neg"},           c, 2, 1, T, X, X, X, w, T) : c \in BOOLEAN, w \in BOOLEAN}
               \cup {RS(<<"fn">>,           {"Neg", "Add"},                     c, 2, 1, X, X, X, X, X, X) : c \in BOOLEAN}
               \cup {RS(<<"negneg", "fn">>, {"I_fn", "Neg"},                    X, 2, 1, X, X, X, X, X, X)}
-Q_pair     == {RS(<<"pair">>,              {"I_pair", "I_pairr", "I_pairc", "Relu"}, c, 2, 1, T, X, X, X, X, X) : c \in BOOLEAN}
+Q_pair     == {RS(<<"pair">>,              {"I_pair", "I_pairr", "I_pairc", "I_pairs", "Relu"}, c, 2, 1, T, X, X, X, X, X) : c \in BOOLEAN}
               \cup {RS(<<"pair">>,         {"I_pair", "Relu"},                 X, 2, 1, T, X, T, X, T, X)}
 \* replacement in a domain the model does not import (matches in the main graph, in If/Loop bodies, in a function)
 Q_ext      == {RS(<<"ext">>,               {"Relu", "Neg"},                    X, 2, 1, T, T, X, X, w, X) : w \in BOOLEAN}
 \* as_function over a DAG pattern with a shared interior value (both operand orders) and with two outputs
 Q_dag      == {RS(<<r>>,                   {"I_dag", "I_dagr", "Neg"},         X, 2, 1, X, X, X, X, w, T) : r \in {"dag", "dagr"}, w \in BOOLEAN}
               \cup {RS(<<"dag">>,          {"I_dag", "I_dagr", "Neg"},         T, 2, 1, T, X, X, X, X, X)}
-              \cup {RS(<<"dagm">>,         {"I_dagm", "Neg"},                  X, 2, 1, X, X, X, X, w, X) : w \in BOOLEAN}
-QuickSets == Q_ext \cup Q_dag \cup Q_negneg \cup Q_keep \cup Q_relurelu \cup Q_mul1 \cup Q_subneg \cup Q_addsum \cup Q_chain \cup Q_dbl \cup Q_fn \cup Q_pair
+              \cup {RS(<<"dagm">>,         {"I_dagm", "I_dagms", "Neg"},       X, 2, 1, X, X, X, X, w, X) : w \in BOOLEAN}
+\* a root node with an output the pattern does not bind: read elsewhere (not removable), unused, absent
+Q_drop     == {RS(<<"drop">>,              {"Drop", "I_drop2", "I_dropm", "Neg"}, X, 2, 1, T, X, X, X, w, X) : w \in BOOLEAN}
+QuickSets == Q_drop \cup Q_ext \cup Q_dag \cup Q_negneg \cup Q_keep \cup Q_relurelu \cup Q_mul1 \cup Q_subneg \cup Q_addsum \cup Q_chain \cup Q_dbl \cup Q_fn \cup Q_pair
 \* thorough: one more step everywhere, loops in more families, depth 2 and single-node alphabets for the cheap ones
 T_negneg   == {RS(<<"negneg">>,            {"Neg"},                            X, 4, 1, T, T, X, X, X, T),
                RS(<<"negneg">>,            {"Neg"},                            X, 5, 1, T, X, X, X, X, X),
@@ -925,18 +964,20 @@ T_dbl      == {RS(rs,                      {"Add", "Mul3"},                    X
 T_fn       == {RS(<<"fn">>,                {"I_fn", "I_fnc", "Neg"},           c, 3, 1, T, X, X, X, w, X) : c \in BOOLEAN, w \in BOOLEAN}
               \cup {RS(<<"fn">>,          {"Neg", "Add"},                     c, 3, 1, X, X, X, X, X, T) : c \in BOOLEAN}
               \cup {RS(rs,                {"I_fn", "I_fnc", "Neg"},           X, 3, 1, X, X, X, X, X, X) : rs \in {<<"negneg", "fn">>, <<"fn", "negneg">>}}
-T_pair     == {RS(<<"pair">>,              {"I_pair", "I_pairr", "I_pairc", "Relu"}, c, 3, 1, T, X, X, X, X, X) : c \in BOOLEAN}
+T_pair     == {RS(<<"pair">>,              {"I_pair", "I_pairr", "I_pairc", "I_pairs", "Relu"}, c, 3, 1, T, X, X, X, X, X) : c \in BOOLEAN}
               \cup {RS(<<"pair">>,        {"Sub", "Add", "Relu"},             X, 3, 1, X, X, sh, X, X, X) : sh \in BOOLEAN}
               \cup {RS(<<"pair">>,        {"I_pair", "I_pairc", "Relu"},      X, 3, 1, T, X, T, X, T, X)}
               \cup {RS(<<"pair", "subneg">>, {"I_pair", "I_pairc", "Sub"},    X, 2, 1, T, X, X, X, X, X)}
 T_ext      == {RS(rs,                      {"Relu", "Neg"},                    X, 3, 1, T, T, X, X, w, X) : rs \in {<<"ext">>, <<"ext", "negneg">>}, w \in BOOLEAN}
 T_dag      == {RS(<<r>>,                   {"I_dag", "I_dagr", "Neg", "Relu"}, X, 3, 1, X, X, X, X, w, T) : r \in {"dag", "dagr"}, w \in BOOLEAN}
               \cup {RS(<<"dag">>,          {"I_dag", "I_dagr", "Neg"},         T, 3, 1, T, X, X, X, X, X)}
-              \cup {RS(<<"dagm">>,         {"I_dagm", "Neg", "Identity"},      X, 3, 1, X, X, X, X, w, X) : w \in BOOLEAN}
+              \cup {RS(<<"dagm">>,         {"I_dagm", "I_dagms", "Neg", "Identity"}, X, 3, 1, X, X, X, X, w, X) : w \in BOOLEAN}
               \cup {RS(<<"dagm">>,         {"I_dagm", "Neg"},                  X, 2, 1, T, X, X, X, X, X)}
-ThoroughSets == T_ext \cup T_dag \cup T_negneg \cup T_keep \cup T_relurelu \cup T_mul1 \cup T_subneg \cup T_chain \cup T_dbl \cup T_fn \cup T_pair
+T_drop     == {RS(rs,                      {"Drop", "I_drop2", "I_dropm", "Neg"}, X, 3, 1, T, T, X, X, w, X) : rs \in {<<"drop">>, <<"drop", "negneg">>}, w \in BOOLEAN}
+ThoroughSets == T_drop \cup T_ext \cup T_dag \cup T_negneg \cup T_keep \cup T_relurelu \cup T_mul1 \cup T_subneg \cup T_chain \cup T_dbl \cup T_fn \cup T_pair
 VacuitySets == {RS(<<"subneg">>, {"Sub"}, X, 2, 1, T, X, X, X, X, X), RS(<<"dbl">>, {"Add"}, X, 2, 1, X, X, X, X, X, X),
-                RS(<<"relurelu">>, {"Relu"}, X, 3, 1, X, X, X, X, X, X), RS(<<"pair">>, {"I_pairc"}, X, 1, 1, X, X, X, X, X, X)}
+                RS(<<"relurelu">>, {"Relu"}, X, 3, 1, X, X, X, X, X, X), RS(<<"pair">>, {"I_pairc"}, X, 1, 1, X, X, X, X, X, X),
+                RS(<<"drop">>, {"Drop", "I_dropm"}, X, 2, 1, X, X, X, X, X, X)}
 \* sizing aid: `CONSTRAINT BuildOnly` + `INVARIANT CountHost` enumerates the hosts of a rule set without running the engine
 BuildOnly == phase = "build"
 CountHost == phase = "begin" => PrintT(<<"HOST", cfg.n>>)
